@@ -262,6 +262,7 @@ impl Recorder {
                     *l.known_hits.entry(k).or_insert(0) += 1;
                 } else {
                     l.nviol += 1;
+                    l.count(&format!("VIOLATION-KIND call={} clause={} observed={} region={}", b.call, b.clause, b.sig, b.region.join("+")), 1);
                     if l.viols.len() < self.max_viols_kept {
                         l.viols.push(*b);
                     } else if let Some(mx) = l.viols.iter_mut().max_by_key(|x| x.index) {
@@ -520,6 +521,9 @@ impl Runner {
             wall,
             self.exhaustive && !self.capped
         );
+        for (k, n) in self.counters.iter().filter(|(k, _)| k.starts_with("VIOLATION-KIND")) {
+            eprintln!("  {} : {} inputs", k, n);
+        }
         if self.nviol > 0 {
             println!("VIOLATION property={} replay={}", self.property, replay_paths.first().cloned().unwrap_or_default());
             for v in self.viols.iter().take(3) {
